@@ -312,3 +312,20 @@ Proof.
   destruct (selected (nth (N.to_nat c) cols mcol0)) eqn:Es; [reflexivity|].
   unfold src_db. apply copied_column_is_migrated_column; [exact Es|]. apply Hw. nlia.
 Qed.
+
+Theorem whole_call_uniform_in_place n cols srcs S' D' :
+  all_distinct srcs ->
+  (forall i, (i < length cols)%nat -> wf_src (cfg_of_flags (m_sf (nth i cols mcol0))) (nth i srcs [])) ->
+  migrate_driver n cols (length cols) true srcs (src_db srcs) = MgOk S' D' ->
+  forall c k, (c < N.of_nat (length cols) ->
+               S' c k = migrated_col (nth (N.to_nat c) cols mcol0) (nth (N.to_nat c) srcs []) k) /\
+              (N.of_nat (length cols) <= c -> S' c k = src_db srcs c k).
+Proof.
+  intros Hd Hw H c k. destruct (driver_overwrite_mode n cols srcs (src_db srcs) S' D' Hd H c k) as [HS _].
+  rewrite HS, spec_db_nth. replace (0 <=? c) with true by (symmetry; apply N.leb_le; nlia). cbn [andb]. split.
+  - intros Hc. replace (c <? 0 + N.of_nat (length cols)) with true by (symmetry; apply N.ltb_lt; nlia).
+    cbv zeta. rewrite N.sub_0_r. fold mcol0.
+    destruct (selected (nth (N.to_nat c) cols mcol0)) eqn:Es; [reflexivity|].
+    unfold src_db. apply copied_column_is_migrated_column; [exact Es|]. apply Hw. nlia.
+  - intros Hc. replace (c <? 0 + N.of_nat (length cols)) with false by (symmetry; apply N.ltb_ge; nlia). reflexivity.
+Qed.
